@@ -135,9 +135,11 @@ theorem print_parse_round_trip_unsigned (W : Nat) (hW : 36 < 2 ^ W) (r n : Nat) 
 -- ======================================================================= fixed-size buffers
 
 /-- **soundness of the length shortcut of `PreparedLarge::new`**: the squaring loop may stop as soon
-    as `2 * prev.len() - 1 > number.len()`, because then `prev * prev > number` (word lengths) -/
+    as the test regenerated from the source text (`Dashu.Gen.fmt_tower_stop`, currently
+    `2 * prev.len() - 1 > number.len()`) holds, because then `prev * prev > number`.  A source change
+    that makes the test unsound breaks this theorem (and `printer_buffers_never_overrun`). -/
 theorem tower_length_shortcut_sound (W : Nat) (hW : 1 ≤ W) (prev n : Nat) (hp : prev ≠ 0)
-    (h : 2 * wordLen W prev - 1 > wordLen W n) : n < prev * prev :=
+    (h : Dashu.Gen.fmt_tower_stop (wordLen W prev) (wordLen W n) = true) : n < prev * prev :=
   length_shortcut_sound W hW prev n hp h
 
 /-- **no fixed-size buffer of the printers is ever overrun**: with `PreparedWord.digits`,
